@@ -11,7 +11,7 @@ import json
 import os
 import re
 import vlib
-from props.c15 import simulate_sharded
+from props.c15 import tlc_enumerate, tlc_simulate, TLC_XMX, HARNESS_JOBS
 
 BATCH = 150
 CMPNAME = {"<": "lt", "<=": "le", ">": "gt", ">=": "ge", "==": "eq", "!=": "ne"}
@@ -28,6 +28,21 @@ def program(meta, pid, ops):
         hostfns.append(h)
     return {"id": pid, "files": {"main.abra": meta["header"] + "".join(o["stmts"] for o in ops)},
             "hostfns": hostfns, "ops": [o["id"] for o in ops]}
+
+
+def vexpect(o):
+    """the spec's expectation of a one-operation program as a vlib.compare expectation (used by ./check --replay):
+    the host log is the getf()/geti() calls of the statements followed by the report call"""
+    gets = [{"f": "getf", "args": [], "tid": 0} for _ in o["frets"]] + [{"f": "geti", "args": [], "tid": 0} for _ in o["irets"]]
+    e = o["exp"]
+    call = lambda args: {"f": o["rep"], "args": args, "tid": 0}
+    if e["k"] == "eq":
+        return {"compile": "ok", "status": "done", "host": gets + [call(e["args"])]}
+    if e["k"] == "oneof":
+        return {"compile": "ok", "status": "done", "host": {"oneof": [gets + [call(a)] for a in e["alts"]]}}
+    if e["k"] == "err":
+        return {"compile": "ok", "status": "error", "errkind": e["errkind"], "host": gets}
+    return {"compile": "ok", "status": "done"}
 
 
 def reports(o):
@@ -74,8 +89,7 @@ def run(prop, tier, seed):
     quick = tier == "quick"
 
     # ---- TLC: exhaustive grid + seeded random bit patterns
-    gcases, gres = vlib.gen_enumerate(prop, mod, cfg=os.path.join(props, "C16.cfg" if quick else "C16_full.cfg"),
-                                      workers=4, timeout=800, env={"SHARD": "g"})
+    gcases, gres = tlc_enumerate(prop, mod, os.path.join(props, "C16.cfg" if quick else "C16_full.cfg"))
     meta = [c for c in gcases if c.get("id") == "meta"]
     gpairs = [c for c in gcases if c.get("id") != "meta"]
     if not meta or not gpairs:
@@ -84,8 +98,8 @@ def run(prop, tier, seed):
     ng = len(meta["grid"])
     if len(gpairs) != ng * ng + 1:
         raise vlib.ToolError("grid enumeration incomplete: %d records for a grid of %d values" % (len(gpairs), ng))
-    nshards, per = (1, 40) if quick else (6, 120)
-    rcases, rwall, rstates = simulate_sharded(prop, mod, os.path.join(props, "C16_random.cfg"), nshards, per, seed)
+    rcases, rres = tlc_simulate(prop, mod, os.path.join(props, "C16_random.cfg"), 20 if quick else 600, seed)
+    rwall, rstates = rres.wall, rres.generated
     rpairs = [c for c in rcases if c.get("id") != "meta"]
     pairs = gpairs + rpairs
     ops = [o for p in pairs for o in p["ops"]]
@@ -100,7 +114,7 @@ def run(prop, tier, seed):
         progs.append(program(meta, "b%d" % (i // BATCH), batchable[i:i + BATCH]))
     nbatches = len(progs)
     progs += [program(meta, "s." + o["id"], [o]) for o in ops if o["solo"]]
-    obs, wall1 = vlib.run_harness(progs, wd, name="round1", timeout=60)
+    obs, wall1 = vlib.run_harness(progs, wd, name="round1", timeout=60, jobs=HARNESS_JOBS)
     sig = {}      # op id -> observation signature
     raw = {}      # op id -> (program, raw observation)
     redo = []
@@ -120,7 +134,7 @@ def run(prop, tier, seed):
     wall2 = 0.0
     if redo:
         progs2 = [program(meta, "s." + i, [byid[i]]) for i in redo]
-        obs2, wall2 = vlib.run_harness(progs2, wd, name="round2", timeout=60)
+        obs2, wall2 = vlib.run_harness(progs2, wd, name="round2", timeout=60, jobs=HARNESS_JOBS)
         for c, o in zip(progs2, obs2):
             sig[c["ops"][0]] = sig_single(o)
             raw[c["ops"][0]] = (c, o)
@@ -146,7 +160,7 @@ def run(prop, tier, seed):
         key = "%s|want=%s|got=%s" % (o["key"] or ("C16|" + o["op"]), want, got)
         disagree[key] += 1
         c, ob = raw[o["id"]]
-        rep.finding(key, dict(program(meta, "s." + o["id"], [o]), op=o["op"], form=o["form"], expect=o["exp"]), ob,
+        rep.finding(key, dict(program(meta, "s." + o["id"], [o]), op=o["op"], form=o["form"], expect=vexpect(o)), raw[o["id"]][1],
                     [{"field": "observation", "want": o["exp"], "got": s}],
                     "float `%s` (form %s): expected %s, observed %s; program: %s (getf -> %s)" % (
                         o["op"], o["form"], o["exp"], s, o["stmts"].replace("\n", "; "), o["frets"]))
@@ -191,7 +205,7 @@ def run(prop, tier, seed):
         rows.append({"form": form, "vals": vals, "T": {x: {y: t[x][y] for y in vals} for x in vals}})
     obs_path = os.path.join(wd, "cmp_tables.ndjson")
     vlib.write_ndjson(obs_path, rows)
-    lres = vlib.tlc(os.path.join(props, "C16Laws.tla"), env={"OBS": obs_path}, timeout=600)
+    lres = vlib.tlc(os.path.join(props, "C16Laws.tla"), env={"OBS": obs_path}, timeout=600, workers=1, xmx=TLC_XMX)
     vlib.tlc_ok(lres, "C16Laws")
     lawstats, lawviol = None, []
     for line in lres.out.splitlines():
